@@ -39,6 +39,12 @@ ENGINES.append({"name": "H7-simcam", "path": "harness/simcam_harness.c + engines
                                   "functions under ASan+UBSan; consumer/trigger/stopper threads with delays injected at the "
                                   "camera's own lock/wait/sleep calls (link-time interposition)"})
 
+ENGINES.append({"name": "H4-devicemanager", "path": "harness/dm_harness.cpp + harness/mockdrv_dm.c + engines/dm.py",
+                "serves_properties": ["C12"],
+                "kind_free_text": "real device.manager.cpp/loader.c/HAL + the real acquire-driver-common module and mock "
+                                  "driver modules laid out next to a copy of the harness executable; python re as the "
+                                  "reference for whole-name matching; one child process per library layout under ASan+UBSan"})
+
 CHECKS = {
     "C01": dict(
         engine="H1-channel", technique="runtime monitoring: reference-model oracle over controlled interleavings + sanitizer stress",
@@ -125,6 +131,16 @@ CHECKS = {
              "frame without trigger' and 'id < triggers since start' are sound under every schedule; ids must strictly "
              "increase; stop must return and release a pending get_frame (watchdog + confirmation re-run).",
         note="schedules are sampled, not enumerated; liveness only as bounded progress; pacing bound assumes >=1 exposure per frame"),
+    "C12": dict(
+        engine="H4-devicemanager", technique="runtime monitoring: differential oracle (python re.fullmatch over the enumerated names) + crash/ASan monitoring per library layout",
+        level="exploration", design_ref="DESIGN.md section 4 / H4 / C12",
+        text="For each layout of present/absent/broken driver libraries the real manager enumerates devices; thousands of "
+             "selection inputs (grammar-generated patterns, escaped names in random case, NUL padding, random and malformed "
+             "byte strings, every kind value, NULL/length combinations, out-of-range indices) are run in a child process; "
+             "results must equal the first enumerated whole-name case-insensitive match computed independently, errors "
+             "must be statuses (no signal, no escaping exception, no ASan/UBSan report), and every enumerated camera/"
+             "storage identifier must open to a device of that kind and name.",
+        note="the grammar of class (i) avoids constructs on which ECMAScript and python regexes differ; raw-byte inputs have the weaker 'Ok => enumerated device of that kind' oracle"),
 }
 
 PENDING_REASON = "check not built yet in this round (planned in DESIGN.md section 4; will be claimed once its harness exists)"
